@@ -3,6 +3,7 @@ package c18
 import (
 	"fmt"
 	"os"
+	"runtime"
 	"strconv"
 	"testing"
 )
@@ -60,5 +61,22 @@ func TestDebugRun(t *testing.T) {
 	fmt.Printf("%+v\n", tot)
 	for k, v := range bad {
 		fmt.Println(v, k)
+	}
+}
+
+func TestDebugMem(t *testing.T) {
+	n, _ := strconv.Atoi(os.Getenv("C18_MEM"))
+	if n == 0 {
+		t.Skip()
+	}
+	var ms runtime.MemStats
+	for i := 0; i < n; i++ {
+		h := Generate(1, i, false)
+		Execute(h)
+		if i%100 == 99 {
+			runtime.GC()
+			runtime.ReadMemStats(&ms)
+			fmt.Println(i+1, "heap MB", ms.HeapAlloc>>20, "objects", ms.HeapObjects)
+		}
 	}
 }
